@@ -176,6 +176,24 @@ def check(kind, case, rec):
                     and np.allclose(rc.dV, rb.dV, rtol=0, atol=1e-14 * float(np.abs(rb.dV).max())) and np.allclose(rc.normals, nrm, rtol=0, atol=1e-13)
                     and len(rc.tangents) == len(rb.tangents) and all(np.allclose(a_, b_, rtol=0, atol=1e-13) for a_, b_ in zip(rc.tangents, rb.tangents)))
             rec.require(f"{how}-describes-the-same-surface", same, {"dV-sum": [float(np.sum(rc.dV)), float(np.sum(rb.dV))]})
+        # a copy / a reload with ANOTHER rule of the same number of points (quadratic cells: unpermuted Gauss-Legendre on faces,
+        # 3-point Gauss-Lobatto on edges): every array is that of a region built with that rule from scratch
+        if kind in ("quad8", "quad9", "hexahedron20", "hexahedron27"):
+            q2 = fem.GaussLobattoBoundary(order=1, dim=2) if dim == 2 else fem.GaussLegendreBoundary(order=2, dim=3, permute=False)
+            if len(q2.weights) == len(rb.quadrature.weights):
+                fresh_q = getattr(fem, BTMPL[kind])(mesh, quadrature=q2, **kw)
+                for how in ("copy(quadrature=)", "reload(quadrature=)"):
+                    if how.startswith("copy"):
+                        rq = rb.copy(quadrature=q2)
+                    else:
+                        rq = rb.copy()
+                        rq.reload(quadrature=q2)
+                    same_q = (np.asarray(rq.dA).shape == np.asarray(fresh_q.dA).shape
+                              and np.allclose(rq.dA, fresh_q.dA, rtol=0, atol=1e-14 * float(np.abs(fresh_q.dA).max()))
+                              and np.allclose(rq.dV, fresh_q.dV, rtol=0, atol=1e-14 * float(np.abs(fresh_q.dV).max()))
+                              and np.allclose(rq.normals, fresh_q.normals, rtol=0, atol=1e-13))
+                    rec.require(how + "-with-another-rule-of-the-same-size=fresh-region", same_q, {"dV-sum": [float(np.sum(rq.dV)), float(np.sum(fresh_q.dV))]})
+                rec.label("another-rule-of-the-same-size")
         # a copy on the same boundary cells with points scaled by s: area vectors scale with s^(dim-1), normals stay
         s_ = 1.5 + (case["sseed"] % 5) / 4.0
         moved = rb.mesh.copy()
@@ -233,7 +251,32 @@ def check(kind, case, rec):
     rec.label("only_surface" if case["only_surface"] else "all-faces")
 
 
-FAMILIES = [Family("boundary", KINDS, check, strategy=strategy, n={"quick": 60, "thorough": 6000}, chunk=15)]
+def large_strategy(kind, tier):
+    return st.fixed_dictionaries({"n": st.sampled_from([55, 61, 72]), "plane": st.sampled_from(["x=0", "x=1", "y=0", "x<=0.5"]), "as_ids": st.booleans()})
+
+
+def large_check(kind, case, rec):
+    """fine meshes (several thousand points): the face selection by a point mask is the same set-membership question, whatever
+    algorithm the array library picks for it at that size"""
+    fem = import_felupe()
+    n = case["n"]
+    mesh = fem.Rectangle(n=n) if kind == "quad" else fem.Cube(n=(n // 4, n // 4, 4))
+    P = np.asarray(mesh.points)
+    mask = {"x=0": np.isclose(P[:, 0], 0), "x=1": np.isclose(P[:, 0], 1), "y=0": np.isclose(P[:, 1], 0), "x<=0.5": P[:, 0] <= 0.5}[case["plane"]]
+    rb = (fem.RegionQuadBoundary if kind == "quad" else fem.RegionHexahedronBoundary)(mesh, mask=np.flatnonzero(mask) if case["as_ids"] else mask)
+    from collections import Counter
+
+    faces_ref = ref_faces(kind)
+    allf = [tuple(sorted(c[f].tolist())) for c in np.asarray(mesh.cells) for f in faces_ref]
+    cnt = Counter(allf)
+    expect = [f for f in cnt if cnt[f] == 1 and mask[list(f)].all()]
+    got = [tuple(sorted(f)) for f in np.asarray(rb.mesh.cells_faces).tolist()]
+    rec.nontrivial = True
+    rec.require("face-selection-on-a-fine-mesh", sorted(got) == sorted(expect), {"got": len(got), "expect": len(expect), "n": n, "plane": case["plane"]})
+
+
+FAMILIES = [Family("fine-mesh-masks", ["quad", "hexahedron"], large_check, strategy=large_strategy, n={"quick": 6, "thorough": 24}, chunk=3),
+            Family("boundary", KINDS, check, strategy=strategy, n={"quick": 60, "thorough": 6000}, chunk=15)]
 
 LEVEL_TEXT = (
     "All six boundary cell types enumerated; Hypothesis draws distorted / curved multi-cell meshes, masks and flags; "
